@@ -1692,6 +1692,7 @@ class Engine(ExprMixin, CallMixin):
         self.used_lemmas = set()
         self.trivial = 0
         self.max_paths = getattr(c, "max_paths", 256)
+        self.prune = bool(getattr(c, "prune_branches", getattr(self.sidecar, "PRUNE_BRANCHES", False)))  # per-contract opt-in
         self.heap0 = {}
         nloops = self.number_loops(fdef)
         for k in self.cur_loops:
